@@ -64,7 +64,8 @@ type apath struct {
 
 type atrailer struct {
 	Walk   bool   `json:"walk"`
-	UID    bool   `json:"uid"`
+	Ext    string `json:"ext"`
+	UID    string `json:"uid"`
 	Auth   string `json:"auth"`
 	Cookie string `json:"cookie"`
 	Nck    int    `json:"nck"`
@@ -78,10 +79,13 @@ type tcase struct {
 	Len  int      `json:"len"`
 	Tr   string   `json:"tr"`
 	Pk   string   `json:"pk"`
+	Fam  string   `json:"fam"`
 	From string   `json:"from"`
 	To   string   `json:"to"`
 	T    atrailer `json:"t"`
+	Nat  int      `json:"nat"`
 	Path apath    `json:"path"`
+	Sc   asc      `json:"sc"`
 	Exp  int      `json:"exp"`
 	Drop string   `json:"drop"`
 }
@@ -94,9 +98,11 @@ type aep struct {
 type asc struct {
 	Sia  string `json:"sia"`
 	Sh   string `json:"sh"`
+	St   string `json:"st"` // host address type: "v4" (T4Ip) | "v6" (T16Ip)
 	Sp   string `json:"sp"`
 	Dia  string `json:"dia"`
 	Dh   string `json:"dh"`
+	Dt   string `json:"dt"`
 	Dp   string `json:"dp"`
 	Path apath  `json:"path"`
 }
@@ -133,7 +139,11 @@ type rec struct {
 	N     int    `json:"n"`
 	Out   []arep `json:"out"`
 	Other int    `json:"other"` // undecodable / non-UDP datagrams that came back
-	Sn    int    `json:"sn"`    // sentinel answered
+	// the sentinel: second datagram on the same socket, a well-formed request
+	Slen  int    `json:"slen"` // its length (48: plain, 252: NTS)
+	Str   string `json:"str"`  // its trailer class ("none" | "nts_ok")
+	Sn    int    `json:"sn"`   // replies to it that reached the socket (0 after 3 attempts | 1)
+	Sout  []arep `json:"sout"`
 	Tries int    `json:"tries"`
 }
 
@@ -194,6 +204,10 @@ func (h *countHandler) Handle(_ context.Context, r slog.Record) error {
 					st = "nts.DecodePacket:errNoUniqueID"
 				case "packet does not contain an authenticator":
 					st = "nts.DecodePacket:errNoAuthenticator"
+				case "unexpected extension header length":
+					st = "nts.DecodePacket:errUnexpectedExtHdrLength"
+				case "UniqueIdentifier.ID < 32 bytes":
+					st = "nts.DecodePacket:errShortUniqueID"
 				}
 			}
 			return true
@@ -238,6 +252,7 @@ type srec struct {
 type srv struct {
 	name      string
 	ip        net.IP
+	ip6       netip.Addr // the host's IPv6 address in SCION headers (never on the underlay)
 	ntpPort   int
 	scionPort int
 	ia        addr.IA
@@ -247,8 +262,9 @@ type srv struct {
 }
 
 var (
-	hostC net.IP
-	iaC   = addr.MustParseIA("1-ff00:0:110")
+	hostC  net.IP
+	hostC6 = netip.MustParseAddr("fd00:1:2:3:4:5:6:c")
+	iaC    = addr.MustParseIA("1-ff00:0:110")
 	srvs  = map[string]*srv{}
 )
 
@@ -267,6 +283,7 @@ func freePort(t testing.TB, ip net.IP) int {
 
 func startServer(t testing.TB, name string, ip net.IP, ia string) *srv {
 	s := &srv{name: name, ip: ip, ia: addr.MustParseIA(ia)}
+	s.ip6 = netip.MustParseAddr("fd00:1:2:3:4:5:6:" + map[string]string{"A": "a", "B": "b"}[name])
 	// the listeners register their counters with promauto on the default
 	// registerer: give each server its own registry so that two servers can
 	// live in one process and their counters can be read separately
@@ -329,12 +346,32 @@ var sentinelSeq atomic.Uint64
 
 // sentinel: version 4, mode 3, receive == transmit timestamp (basic mode for
 // certain), transmit timestamp = 0xA5 0x5A <48-bit counter>
-func sentinel() ([]byte, []byte) {
-	b := make([]byte, 48)
+func sentinel(s *srv, withNTS bool, rng *rand.Rand) ([]byte, []byte) {
+	b := make([]byte, 48, nts.MaxPacketLen)
 	b[0] = 0x23
 	binary.BigEndian.PutUint64(b[40:], 0xA55A<<48|sentinelSeq.Add(1)&0xffffffffffff)
 	copy(b[32:40], b[40:48])
-	return b, b[40:48]
+	mark := append([]byte{}, b[40:48]...)
+	if withNTS {
+		// a valid NTS request (252 bytes) from the repository's own encoder
+		c2s, s2c := randBytes(rng, 32), randBytes(rng, 32)
+		key := s.prov.Current()
+		plain := ntske.ServerCookie{Algo: 15, S2C: s2c, C2S: c2s}
+		ec, err := plain.EncryptWithNonce(key.Value, key.ID)
+		if err != nil {
+			panic(err)
+		}
+		pool := make([][]byte, 8)
+		for i := range pool {
+			pool[i] = ec.Encode()
+		}
+		pkt, _ := nts.NewRequestPacket(ntske.Data{C2sKey: c2s, S2cKey: s2c, Cookie: pool, Algo: 15})
+		nts.EncodePacket(&b, &pkt)
+		if len(b) != 252 {
+			panic("NTS sentinel is not 252 bytes long")
+		}
+	}
+	return b, mark
 }
 
 func randBytes(rng *rand.Rand, n int) []byte {
@@ -425,16 +462,7 @@ func buildPayload(c *tcase, s *srv, rng *rand.Rand) ([]byte, []byte) {
 	if len(cookie) != 124 {
 		panic("cookie length is not the 124 bytes Listener.tla assumes")
 	}
-	nat := 48 + 128*t.Nck
-	if t.UID {
-		nat += 36
-	}
-	if t.Auth != "none" {
-		nat += 40
-	}
-	if t.After {
-		nat += 28
-	}
+	nat := c.Nat // NatLen of Listener.tla; checked against what is built below
 	if c.Len == nat && (c.Tr == "nts_ok" || c.Tr == "nts_ok_ph") {
 		// natural length: the repository's own encoder (8 / 6 cookies in the
 		// client's pool => 0 / 2 placeholders)
@@ -454,11 +482,22 @@ func buildPayload(c *tcase, s *srv, rng *rand.Rand) ([]byte, []byte) {
 	if c.Len != nat {
 		b = append(b, unknownWalk(rng, c.Len-nat)...)
 	}
-	if t.UID {
+	if t.Ext == "lt4" {
+		// a field whose Length is below the 4 bytes of its own header
+		f := randBytes(rng, 28)
+		binary.BigEndian.PutUint16(f[2:], uint16(rng.Intn(4)))
+		b = append(b, f...)
+	}
+	switch t.UID {
+	case "ok":
 		b = append(b, field(extUID, randBytes(rng, 32))...)
+	case "short":
+		b = append(b, field(extUID, randBytes(rng, 24))...)
 	}
 	for i := 0; i < t.Nck; i++ {
-		if i == 0 {
+		if i == 0 && t.Cookie == "undecodable" {
+			b = append(b, field(extCookie, []byte{0, byte(rng.Intn(256)), 0, 0})...)
+		} else if i == 0 {
 			b = append(b, field(extCookie, cookie)...)
 		} else {
 			b = append(b, field(extPlaceh, make([]byte, 124))...)
@@ -475,6 +514,9 @@ func buildPayload(c *tcase, s *srv, rng *rand.Rand) ([]byte, []byte) {
 			ct[rng.Intn(len(ct))] ^= 1 << uint(rng.Intn(8))
 		}
 		body := []byte{0, 16, 0, 16}
+		if t.Auth == "badnonce" {
+			body = []byte{0, 12, 0, 20} // same 32 bytes, split 12 + 20
+		}
 		body = append(body, nonce...)
 		body = append(body, ct...)
 		b = append(b, field(extAuth, body)...)
@@ -523,23 +565,37 @@ func pathBytes(p path.Path) []byte {
 	return b
 }
 
-func hostAddr(ip net.IP) addr.Host {
+func v4(ip net.IP) netip.Addr {
 	a, _ := netip.AddrFromSlice(ip.To4())
-	return addr.HostIP(a)
+	return a
+}
+
+// the address of host h ("C", "A", "B") of SCION address type t ("v4" | "v6")
+func hostOf(h, t string) netip.Addr {
+	if h == "C" {
+		if t == "v6" {
+			return hostC6
+		}
+		return v4(hostC)
+	}
+	if t == "v6" {
+		return srvs[h].ip6
+	}
+	return v4(srvs[h].ip)
 }
 
 // SCION/UDP packet; returns the bytes and the serialized path
-func buildSCION(srcIA, dstIA addr.IA, srcIP, dstIP net.IP, srcPort, dstPort int, p path.Path, pt path.Type,
+func buildSCION(srcIA, dstIA addr.IA, srcIP, dstIP netip.Addr, srcPort, dstPort int, p path.Path, pt path.Type,
 	payload []byte) ([]byte, []byte) {
 	var sl slayers.SCION
 	sl.FlowID = 1
 	sl.NextHdr = slayers.L4UDP
 	sl.PathType = pt
 	sl.SrcIA, sl.DstIA = srcIA, dstIA
-	if err := sl.SetSrcAddr(hostAddr(srcIP)); err != nil {
+	if err := sl.SetSrcAddr(addr.HostIP(srcIP)); err != nil {
 		panic(err)
 	}
-	if err := sl.SetDstAddr(hostAddr(dstIP)); err != nil {
+	if err := sl.SetDstAddr(addr.HostIP(dstIP)); err != nil {
 		panic(err)
 	}
 	sl.Path = p
@@ -566,13 +622,25 @@ func iaName(ia addr.IA) string {
 	return "?"
 }
 
-func hostName(raw []byte) string {
-	if bytes.Equal(raw, hostC.To4()) {
-		return "C"
+func typeName(t slayers.AddrType) string {
+	switch t {
+	case slayers.T4Ip:
+		return "v4"
+	case slayers.T16Ip:
+		return "v6"
 	}
-	for _, s := range srvs {
-		if bytes.Equal(raw, s.ip.To4()) {
-			return s.name
+	return "?"
+}
+
+// inverse of hostOf on (address type, raw bytes); "?" if it is nobody's address
+func hostName(t slayers.AddrType, raw []byte) string {
+	tn := typeName(t)
+	if tn == "?" {
+		return "?"
+	}
+	for _, h := range []string{"C", "A", "B"} {
+		if bytes.Equal(raw, hostOf(h, tn).AsSlice()) {
+			return h
 		}
 	}
 	return "?"
@@ -638,8 +706,9 @@ func decodeSCION(b []byte, myPort, srvPort int) scionReply {
 		return "?"
 	}
 	return scionReply{ok: true, payload: ul.Payload, pathRaw: pathBytes(sl.Path),
-		sc: asc{Sia: iaName(sl.SrcIA), Sh: hostName(sl.RawSrcAddr), Sp: pn(ul.SrcPort),
-			Dia: iaName(sl.DstIA), Dh: hostName(sl.RawDstAddr), Dp: pn(ul.DstPort), Path: projectPath(sl.Path)}}
+		sc: asc{Sia: iaName(sl.SrcIA), Sh: hostName(sl.SrcAddrType, sl.RawSrcAddr), St: typeName(sl.SrcAddrType), Sp: pn(ul.SrcPort),
+			Dia: iaName(sl.DstIA), Dh: hostName(sl.DstAddrType, sl.RawDstAddr), Dt: typeName(sl.DstAddrType), Dp: pn(ul.DstPort),
+			Path: projectPath(sl.Path)}}
 }
 
 // ------------------------------------------------------------------ one case
@@ -655,7 +724,7 @@ func runCase(id, rep int, c *tcase, rng *rand.Rand) *rec {
 		Src: aep{"C", "eph"}, Dst: s.ep(c.Tp), Exp: c.Exp, Drop: c.Drop, Out: []arep{}}
 	for try := 1; try <= maxTries; try++ {
 		r.Tries = try
-		r.Out, r.N, r.Other, r.Sn = []arep{}, 0, 0, 0
+		r.Out, r.Sout, r.N, r.Other, r.Sn = []arep{}, []arep{}, 0, 0, 0
 		// a fresh source port; it must differ from the listeners' port numbers,
 		// otherwise the port abstraction (eph / ntp / sntp) has no exact inverse
 		var conn *net.UDPConn
@@ -674,29 +743,39 @@ func runCase(id, rep int, c *tcase, rng *rand.Rand) *rec {
 		}
 		dst := s.udpAddr(c.Tp)
 		payload, tx := buildPayload(c, s, rng)
-		sent, mark := sentinel()
+		// the sentinel alternates between a plain and an NTS request, so that a
+		// well-formed request LONGER than the case follows it on the same socket too
+		r.Slen, r.Str = 48, "none"
+		if (id+rep+try)%2 == 1 {
+			r.Slen, r.Str = 252, "nts_ok"
+		}
+		sent, mark := sentinel(s, r.Slen == 252, rng)
 		wire, swire := payload, sent
-		var wantPath []byte
+		var wantPath, swantPath []byte
 		if c.Tp == "scion" {
-			p, pt := buildPath(c.Path, rng)
-			var pb []byte
-			wire, pb = buildSCION(iaC, s.ia, hostC, s.ip, myPort, s.scionPort, p, pt, payload)
-			// what the reply's path must be: slayers' own Reverse() of a copy
-			wantPath = pb
-			if c.Path.Kind != "empty" {
-				raw := &scion.Raw{}
-				if err := raw.DecodeFromBytes(append([]byte{}, pb...)); err != nil {
-					panic(err)
+			// SCION/UDP around the payload; also what the reply's path must be:
+			// slayers' own Reverse() of a copy of the request's path
+			wrap := func(pl []byte) ([]byte, []byte) {
+				p, pt := buildPath(c.Path, rng)
+				w, pb := buildSCION(iaC, s.ia, hostOf("C", c.Sc.St), hostOf(s.name, c.Sc.Dt), myPort, s.scionPort, p, pt, pl)
+				want := pb
+				if c.Path.Kind != "empty" {
+					raw := &scion.Raw{}
+					if err := raw.DecodeFromBytes(append([]byte{}, pb...)); err != nil {
+						panic(err)
+					}
+					rv, err := raw.Reverse()
+					if err != nil {
+						panic(err)
+					}
+					want = pathBytes(rv)
 				}
-				rv, err := raw.Reverse()
-				if err != nil {
-					panic(err)
-				}
-				wantPath = pathBytes(rv)
+				return w, want
 			}
-			ps, pts := buildPath(c.Path, rng)
-			swire, _ = buildSCION(iaC, s.ia, hostC, s.ip, myPort, s.scionPort, ps, pts, sent)
-			r.Sc = &asc{"iaC", "C", "eph", "ia" + s.name, s.name, "sntp", c.Path}
+			wire, wantPath = wrap(payload)
+			swire, swantPath = wrap(sent)
+			sc := c.Sc
+			r.Sc = &sc
 		}
 		if _, err := conn.WriteToUDP(wire, dst); err != nil {
 			panic(err)
@@ -718,6 +797,7 @@ func runCase(id, rep int, c *tcase, rng *rand.Rand) *rec {
 			if from.IP.Equal(s.ip) && from.Port == dst.Port {
 				o.Src = s.ep(c.Tp)
 			}
+			var pathRaw []byte
 			if c.Tp == "scion" {
 				d := decodeSCION(pl, myPort, s.scionPort)
 				if !d.ok {
@@ -726,12 +806,9 @@ func runCase(id, rep int, c *tcase, rng *rand.Rand) *rec {
 				}
 				pl = d.payload
 				o.Sc = &d.sc
-				o.RawOK = bytes.Equal(d.pathRaw, wantPath)
+				pathRaw = d.pathRaw
 			}
-			if len(pl) >= 48 && bytes.Equal(pl[24:32], mark) {
-				r.Sn = 1
-				break
-			}
+			isSentinel := len(pl) >= 48 && bytes.Equal(pl[24:32], mark)
 			o.B0, o.St, o.Len, o.Tr = -1, -1, len(pl), "none"
 			if len(pl) > 0 {
 				o.B0 = int(pl[0])
@@ -742,7 +819,15 @@ func runCase(id, rep int, c *tcase, rng *rand.Rand) *rec {
 			if len(pl) > 48 {
 				o.Tr = "nts_resp"
 			}
+			if isSentinel {
+				o.Echo = true
+				o.RawOK = c.Tp != "scion" || bytes.Equal(pathRaw, swantPath)
+				r.Sout = []arep{o}
+				r.Sn = 1
+				break
+			}
 			o.Echo = tx != nil && len(pl) >= 48 && bytes.Equal(pl[24:32], tx)
+			o.RawOK = c.Tp != "scion" || bytes.Equal(pathRaw, wantPath)
 			r.Out = append(r.Out, o)
 			r.N++
 		}
@@ -807,7 +892,7 @@ func runPair(id int, c *tcase, rng *rand.Rand) (*prec, error) {
 	wire := payload
 	if c.Tp == "scion" {
 		p, pt := buildPath(c.Path, rng)
-		wire, _ = buildSCION(from.ia, to.ia, from.ip, to.ip, from.scionPort, to.scionPort, p, pt, payload)
+		wire, _ = buildSCION(from.ia, to.ia, hostOf(from.name, c.Sc.St), hostOf(to.name, c.Sc.Dt), from.scionPort, to.scionPort, p, pt, payload)
 	}
 	before := snapshot(c.Tp)
 	if err := sendForged(from.udpAddr(c.Tp), to.udpAddr(c.Tp), wire); err != nil {
@@ -872,7 +957,8 @@ func TestC09(t *testing.T) {
 	// otherwise every case would run into the sentinel time-out
 	pre := 0
 	for _, tp := range []string{"ip", "scion"} {
-		c := tcase{Tp: tp, B0: 0x23, Len: 48, Tr: "none", Pk: "empty", From: "C", To: "A", Path: emptyPath, Exp: 1, Drop: "none"}
+		c := tcase{Tp: tp, B0: 0x23, Len: 48, Tr: "none", Pk: "empty", Fam: "44", From: "C", To: "A", Path: emptyPath, Exp: 1, Drop: "none",
+			Sc: asc{"iaC", "C", "v4", "eph", "iaA", "A", "v4", "sntp", emptyPath}}
 		r := runCase(-1, 0, &c, vio.Rand())
 		out.Emit(r)
 		pre++
@@ -938,6 +1024,12 @@ func TestC09(t *testing.T) {
 	for i := range pairs {
 		if bad >= 3 {
 			break // run-away traffic already recorded; further deltas would be polluted by it
+		}
+		if lost.Load() > 0 {
+			// some listener socket stopped answering well-formed requests (recorded
+			// above); the servers' counters are no basis for the pair experiment then
+			t.Logf("C09 pair experiment skipped: %d sentinels unanswered", lost.Load())
+			break
 		}
 		r, err := runPair(i, &pairs[i], rng)
 		if err != nil {
